@@ -148,6 +148,7 @@ func (sesh *Session) OpenStream() (*Stream, error) {
 	if sesh.IsClosed() {
 		return nil, ErrBrokenSession
 	}
+	common.VerifPoint("Session.OpenStream:afterClosedCheck")
 	id := atomic.AddUint32(&sesh.nextStreamID, 1) - 1
 	// Because atomic.AddUint32 returns the value after incrementation
 	if sesh.Singleplex && id > 1 {
